@@ -498,6 +498,12 @@ def life2(case, point, downtime, ctx, origin):
         storage = harness.Storage(init=snap)
         dict.__setitem__(storage, 'another-ghost', 123)
         circuit.set_persistent_data(storage)
+        if int(origin + downtime * 7) % 3 == 0:
+            # debug messages on in a third of the restarts (records discarded): what is restored
+            # and what is discarded does not depend on it
+            circuit.set_debug(True, '*')
+            circuit.debug = True
+            ctx.count('restarts_with_debug_messages_on')
         simtask = asyncio.create_task(circuit.run_forever(), name='vf: simtask')
         try:
             await circuit.wait_init()
